@@ -163,7 +163,7 @@ NsOnly(viol) == \/ (\E i \in 1..Len(viol) : viol[i] = "ParameterEntity")
 
 \* as-is models: the first violated constraint is one the parser is known not to check, and it
 \* is the only kind of violation in the document
-C02Names == {"name-start-unchecked"}
+C02Names == {"name-start-unchecked", "entity-replacement-not-parsed"}
 OnlyLabels(viol, S) == viol # <<>> /\ \A i \in 1..Len(viol) : viol[i] \in S
 \* "name-start-unchecked" (catalogued under C18, production Name = (NameChar)+ in the parser):
 \* a PI target / entity / notation name that is an Nmtoken but not a Name is accepted
@@ -178,6 +178,9 @@ BadNameIsNmtoken(toks) ==
           [] OTHER -> TRUE
 AsIsAppliesC02(name, e, rec) ==
   CASE name = "name-start-unchecked" -> OnlyLabels(rec.viol, {"BadName"}) /\ BadNameIsNmtoken(e.toks)
+    \* "entity-replacement-not-parsed": a reference in content stays a reference node; the replacement text is never
+    \* parsed as content, so an entity whose replacement text is not well-formed content is accepted
+    [] name = "entity-replacement-not-parsed" -> OnlyLabels(rec.viol, {"ReplacementNotContent"})
     [] OTHER -> FALSE
 
 C02Verdict(e, rec) ==
